@@ -32,6 +32,8 @@ def detect(ids, all_checks=False, record=False):
     rec = json.load(open(recp)) if os.path.isfile(recp) else {}
     for sid in ids:
         d = os.path.join(VERIF, "seeded", sid)
+        if not os.path.isfile(os.path.join(d, "meta.json")):
+            print(f"{sid}: not imported yet"); continue
         meta = json.load(open(os.path.join(d, "meta.json")))
         prop = meta["property"]
         rc, out = sh(f"git -C /repo apply {d}/patch.diff")
